@@ -24,7 +24,8 @@ static Case genRecCase(Choices &c, int tier, const char *prop, int errorPct, boo
   o.ambiguityBias = 5;
   if (tier) { o.maxT = 4; o.maxN = 5; o.extraRules += 2; }
   GramDef gd;
-  gd.raw = genGrammar(c, o);
+  bool block = errorPct > 0 && c.upto(9) >= 7; // 30%: block-structured template with several error rules
+  gd.raw = block ? genBlockGrammar(c, o) : genGrammar(c, o);
   gd.strict = strictOnly ? 1 : c.flip();
   if (!strictOnly && !classify(gd.raw, gd.strict).empty() && classify(gd.raw, !gd.strict).empty()) gd.strict = !gd.strict;
   cs.grams.push_back(gd);
@@ -32,6 +33,7 @@ static Case genRecCase(Choices &c, int tier, const char *prop, int errorPct, boo
   if (!toGram(gd.raw, g) || !classify(gd.raw, gd.strict).empty()) return cs;
   std::vector<int> ml = minLen(g);
   int maxLen = tier ? 14 : 9;
+  if (block) maxLen += 4;
   for (int k = 0; k < nInputs; k++) {
     int kind = c.chance(10) ? 0 : (c.chance(75) ? 1 : 2);
     cs.inputs.push_back(toCodes(g, genInputIdx(c, g, ml, maxLen, kind)));
@@ -94,7 +96,7 @@ static Verdict runC06(const Case &cs) {
       Outcome o = runParse(*b, codes, cf, po);
       v.parses++;
       std::string where = " [" + cf.str() + " input=" + inputStr(codes) + " reference error token=" + std::to_string(re) + "] got " + o.str();
-      if (o.hook.rec_explosion) { v.labels.insert("excluded:F27-recovery-explosion"); b->destroy(); delete b; continue; }
+      if (o.exploded()) { v.labels.insert(o.explosionLabel()); b->destroy(); delete b; continue; }
       if (o.rc != 0) { v.fail("yaep_parse returned " + std::to_string(o.rc) + where); return v; }
       if (o.errs.empty()) { v.fail("no syntax_error call for a non-sentence" + where); return v; }
       const ErrCall f = o.errs[0];
@@ -277,7 +279,7 @@ static Verdict runC07(const Case &cs) {
       Outcome o = runParse(*b, codes, cf, po);
       v.parses++;
       std::string where = " [" + cf.str() + " input=" + inputStr(codes) + " sentence=" + std::to_string(sent) + "] got " + o.str();
-      if (o.hook.rec_explosion) { v.labels.insert("excluded:F27-recovery-explosion"); b->destroy(); delete b; continue; }
+      if (o.exploded()) { v.labels.insert(o.explosionLabel()); b->destroy(); delete b; continue; }
       if (o.rc != 0) { v.fail("yaep_parse returned " + std::to_string(o.rc) + " with recovery on" + where); return v; }
       if (sent != o.errs.empty()) { v.fail("syntax_error calls do not match the verdict (at least one call iff not a sentence)" + where); return v; }
       if (!o.root) {
@@ -410,7 +412,7 @@ static Verdict runC08(const Case &cs) {
       Outcome o = runParse(*b, codes, cf, po);
       v.parses++;
       std::string where = " [" + cf.str() + " input=" + inputStr(codes) + " first error token=" + std::to_string(re) + " reference minimum=" + std::to_string(best) + "] got " + o.str();
-      if (o.hook.rec_explosion) { v.labels.insert("excluded:F27-recovery-explosion"); b->destroy(); delete b; continue; }
+      if (o.exploded()) { v.labels.insert(o.explosionLabel()); b->destroy(); delete b; continue; }
       if (o.rc != 0 || o.errs.empty()) { v.fail("recovery on: rc != 0 or no callback for a non-sentence" + where); return v; }
       if (!o.root) { v.labels.insert("no-recovery(NULL root; judged by C07)"); b->destroy(); delete b; continue; }
       long got = o.errs[0].r - o.errs[0].s;
